@@ -419,10 +419,9 @@ fn peval(req: &J) -> J {
 /// level validation of one policy against a fixed schema with entity chains: returns whether it passes at each level 0..=4
 fn validate_level(req: &J) -> J {
     use cedar_policy::{Schema, ValidationMode, Validator};
-    let (schema, _) = match Schema::from_cedarschema_str(
-        "entity User in [Group] { manager: User, name: String, info: { boss: User, n: Long } } tags String; entity Group { owner: User }; entity Photo { owner: User }; \
-         action view appliesTo { principal: User, resource: Photo, context: { who: User } };",
-    ) {
+    let default_schema = "entity User in [Group] { manager: User, name: String, info: { boss: User, n: Long } } tags String; entity Group { owner: User }; entity Photo { owner: User }; \
+         action view appliesTo { principal: User, resource: Photo, context: { who: User } };";
+    let (schema, _) = match Schema::from_cedarschema_str(req["schema"].as_str().unwrap_or(default_schema)) {
         Ok(s) => s,
         Err(e) => return json!({"input_error": e.to_string()}),
     };
